@@ -333,6 +333,33 @@ func c04(r *core.Run) {
 					return
 				}
 				switch x := v.(type) {
+				case *ssa.Parameter:
+					// handed in by the caller: follow the argument at every call site
+					pf := x.Parent()
+					for _, caller := range p.CG().In[pf] {
+						allInstrs(caller, func(in ssa.Instruction) {
+							cs, ok := in.(ssa.CallInstruction)
+							if !ok {
+								return
+							}
+							for _, cal := range p.Callees(cs) {
+								if cal != pf {
+									continue
+								}
+								cc := cs.Common()
+								var actuals []ssa.Value
+								if cc.IsInvoke() {
+									actuals = append(actuals, cc.Value)
+								}
+								actuals = append(actuals, cc.Args...)
+								for i, q := range pf.Params {
+									if q == x && i < len(actuals) {
+										back(actuals[i], d+1)
+									}
+								}
+							}
+						})
+					}
 				case *ssa.Extract:
 					if c, ok := x.Tuple.(*ssa.Call); ok {
 						resolvers[c] = true
@@ -369,9 +396,12 @@ func c04(r *core.Run) {
 				}
 				return false
 			})
-			u1 := p.FindUnguarded(fn, []*core.Effect{eff}, anyOf(distinct, p.FlagImplies(fn, distinct)), false)
+			viaParam := func(base core.GuardMatch) core.GuardMatch {
+				return p.ParamFlagImplies(fn, func(f *ssa.Function) core.GuardMatch { return anyOf(base, p.FlagImplies(f, base)) })
+			}
+			u1 := p.FindUnguarded(fn, []*core.Effect{eff}, anyOf(distinct, p.FlagImplies(fn, distinct), viaParam(distinct)), false)
 			r.Check(len(u1) == 0, "C04/R6", sp.key+":referrer-distinct-from-signer", p.InstrPos(s.bo.Instr), "referrer payout only behind Eq(resolved msg.Referral, signer)=false", "the referral commission (and discount) can be paid when the referrer is not established to be distinct from the paying signer — a payer can refer itself")
-			u2 := p.FindUnguarded(fn, []*core.Effect{eff}, anyOf(resolved, p.FlagImplies(fn, resolved)), false)
+			u2 := p.FindUnguarded(fn, []*core.Effect{eff}, anyOf(resolved, p.FlagImplies(fn, resolved), viaParam(resolved)), false)
 			r.Check(len(u2) == 0, "C04/R6", sp.key+":referrer-resolved", p.InstrPos(s.bo.Instr), "referrer payout only behind ErrNil(resolve msg.Referral)", "the referral commission can be paid to an unresolved referrer")
 			// the fee-collector payout is the complementary branch: not behind the same flag=true
 		}
